@@ -57,7 +57,9 @@ def run(ctx: Ctx) -> Result:
             elif c < .3 and n: signer = idx[rng.randrange(n)]; s = None              # maybe same signer again (flag variant)
             elif c < .4 and outsiders: signer = rng.choice(outsiders); s = None     # outsider
             elif c < .45: s = rng.choice([V.rbytes(rng, rng.choice([10, 63, 66])), b'', b'\x00', b'\x01', b'\xff', V.rbytes(rng, 2)]); well = False   # malformed, incl. empty / OP_FALSE-style placeholders
-            elif c < .5: s = None; fl = (rng.choice(nbits) | (sub() if rng.random() < .3 else 0)) if nbits else 0      # non-permitted flag (any bit outside the allowance)
+            elif c < .53:          # a valid signature (and flag byte) followed by extra bytes is not a signature item
+                s = keys.sks[signer].sign(ref_msg(cache, fl)).signature + (bytes([fl]) if fl or rng.random() < .5 else b'\x00') + V.rbytes(rng, rng.choice([1, 1, 2, 5])); well = False
+            elif c < .58: s = None; fl = (rng.choice(nbits) | (sub() if rng.random() < .3 else 0)) if nbits else 0      # non-permitted flag (any bit outside the allowance)
             else: s = None
             if s is None:
                 s = keys.sks[signer].sign(ref_msg(cache, fl)).signature + (bytes([fl]) if fl else b'')
